@@ -374,6 +374,16 @@ pub fn run(tier: Tier) -> i32 {
             s.push_str(&format!("bm{}\n", m));
             s
         });
+        // ... and bodies that print
+        probe(&mut cases, &mut meta, "message-macro-doubling-chain", n, {
+            let m = [4usize, 8, 12, 16, 24][ladder.iter().position(|x| *x == n).unwrap_or(0)];
+            let mut s = format!(".device ATtiny13\n.macro pm0\n.message \"{}\"\n.warning \"{}\"\n.endm\n", "m".repeat(1500), "w".repeat(500));
+            for i in 1..=m {
+                s.push_str(&format!(".macro pm{}\npm{}\npm{}\n.endm\n", i, i - 1, i - 1));
+            }
+            s.push_str(&format!("pm{}\nnop\n", m));
+            s
+        });
         probe(&mut cases, &mut meta, "label-macro-doubling-chain", n, {
             let m = [4usize, 8, 12, 16, 24][ladder.iter().position(|x| *x == n).unwrap_or(0)];
             let mut s = format!(".device ATtiny13\n.macro lm0\n{}.endm\n", ".set lm_v = 1\n.def lm_r = r16\n".repeat(150));
